@@ -57,7 +57,9 @@ unsafe impl GlobalAlloc for Counting {
             let cap = HARD_CAP.with(|c| c.get());
             if cap != 0 && live > cap {
                 LIVE.with(|c| c.set(c.get().wrapping_sub(d)));
-                let _ = write_stderr(b"cosim-alloc: hard cap on live bytes exceeded, refusing reallocation\n");
+                let _ = write_stderr(
+                    b"cosim-alloc: hard cap on live bytes exceeded, refusing reallocation\n",
+                );
                 return std::ptr::null_mut();
             }
             PEAK.with(|c| {
@@ -93,7 +95,11 @@ pub struct Snapshot {
 pub fn begin() -> Snapshot {
     let live = LIVE.with(|c| c.get());
     PEAK.with(|c| c.set(live));
-    Snapshot { live, total: TOTAL.with(|c| c.get()), calls: CALLS.with(|c| c.get()) }
+    Snapshot {
+        live,
+        total: TOTAL.with(|c| c.get()),
+        calls: CALLS.with(|c| c.get()),
+    }
 }
 
 #[derive(Clone, Copy, Debug, Default)]
